@@ -12,6 +12,7 @@ RULE = ("bounded-exhaustive enumeration of operand shapes (every (un,vn) with un
         "EXH(L5) for tiny shapes, RUN(L5,.,2) for small shapes) x configurations (pinned build; run-time-threshold build under the "
         "tune-legal floor vector, every shipped gmp-mparam.h vector, and single-threshold deviations). Oracle: Python a*b. "
         "distinct_nontrivial = distinct (entry point, configuration, un, vn, content-pair index) tuples whose product is non-zero.")
+RULE = RULE + (" " + 'Later additions: matrix-Fourier FFT regime with closed-form oracles, overlapping sources (prefix/suffix of the other operand), 128 feature subsets around every 500-limb seam of the chunked schoolbook path.')
 ASSUMPTIONS = ["Python int multiplication is the reference model",
                "the rt variant (-DTUNE_PROGRAM_BUILD=1, the project's own switch) runs the same algorithm code as the pinned build except mulmod_2expp1_basecase's FFT branch",
                "contents outside the stated families and sizes above the stated bounds are not explored"]
